@@ -5677,8 +5677,9 @@ impl GraphEngine {
                     } else {
                         continue;
                     };
-                    // Avoid duplicates when direction is Both and edge is undirected
-                    if direction == Direction::Both && !edge.directed {
+                    // Avoid duplicates when direction is Both: an undirected edge and a
+                    // self-loop are in both lists of this node and were added above
+                    if direction == Direction::Both && (!edge.directed || edge.from == edge.to) {
                         continue;
                     }
                     results.push((neighbor, edge_id));
